@@ -151,10 +151,14 @@ func gen(seed int64, n int, tier string) []interface{} {
 			nc = 2
 		}
 		seenCls := map[string]bool{}
+		defaultPkg := r.Intn(8) == 0 // a small project whose sources carry no package declaration at all
 		for len(in.Classes) < nc {
 			c := Class{Pkg: "p", Kind: "class"}
 			if r.Intn(4) == 0 {
 				c.Pkg = "q.r"
+			}
+			if defaultPkg {
+				c.Pkg = ""
 			}
 			c.Name = []string{stems[r.Intn(len(stems))]}
 			if r.Intn(3) == 0 {
